@@ -49,13 +49,13 @@ def _stored_weight(ctx, store, voter):
 class Step(VC):
     property_id = "C06"
 
-    def __init__(self, crate, variant):
-        self.crate, self.variant = crate, variant
+    def __init__(self, crate, variant, after=None):
+        self.crate, self.variant, self.after = crate, variant, after
         self.extra_crates = ("cw3",)
-        self.name = f"C06.{'fixed' if crate == FIXED else 'flex'}.{variant}"
+        self.name = f"C06.{'fixed' if crate == FIXED else 'flex'}." + (f"chain.{after}.then." if after else "") + variant
 
     def run(self, I, ctx, ob):
-        f = ms_step(I, ctx, ob, self.crate, self.variant)
+        f = ms_step(I, ctx, ob, self.crate, self.variant, after=self.after)
         if f.outcome != "Ok": return
         v = self.variant
         blk = f.blk
@@ -125,6 +125,11 @@ def vcs(tier):
     out = [FixedBase(2)] + [Step(FIXED, v) for v in ("Propose", "Vote", "Execute", "Close")]
     out += [Step(FLEX, v) for v in ("Propose", "Vote", "Execute", "Close", "MemberChangedHook")]
     if tier == "thorough": out.append(FixedBase(3))
+    # two-call chains on one proposal (thorough): the second call is judged on the state the first really left behind
+    import os
+    if tier == "thorough" and os.environ.get("VERIF_CHAINS"):
+        CHV = ("Vote", "Execute", "Close")
+        for c in (FIXED, FLEX): out += [Step(c, b, after=a) for a in CHV for b in CHV]
     return out
 
 
